@@ -71,6 +71,8 @@ OPS = {
     'head': (['List (List β)'], 'List β', 'PyRtC19.head'),            # `ls[0]` where `ls` is known to be non-empty
     'file_read': (['List β', 'Int', 'Int'], 'List β', 'PyRtC19.fileRead'),            # `f.read(n)` at (data, pos)
     'seek_set': (['Int'], 'Int', 'PyRtC19.seekSet?', True),                # `f.seek(p)`: ValueError for a negative p
+    # --- text mode (T-rules, round 3f): `X.decode(P)`, P a parameter declared to be the codec name 'utf-8'
+    'decode_utf8': (['List β'], 'Str', 'PyRtC19.decodeUtf8?', True),       # UnicodeDecodeError (a ValueError) or the text
 }
 BYTES_T = ('List', ('Var', 'β'))
 
@@ -214,8 +216,14 @@ def _file_prepass(f, cfg, notes):
     fc = cfg['file']
     F, DATA, POS = fc['param'], fc['data'], fc['pos']
     nones = list(cfg.get('none_params', []))
+    # T-rules (round 3f): parameters declared to be a NON-EMPTY str naming the codec `cfg['codec']` (only 'utf-8' is known)
+    truthy = list(cfg.get('truthy_params', []))
+    if truthy and cfg.get('codec') != 'utf-8':
+        raise Unsupported(f, 'a codec parameter is declared but the codec is not utf-8')
+    if set(truthy) & set(nones):
+        raise Unsupported(f, 'a parameter is declared both None and a codec name')
     argn = [a.arg for a in f.args.args]
-    if F not in argn or any(p not in argn for p in nones):
+    if F not in argn or any(p not in argn for p in nones + truthy):
         raise Unsupported(f, 'the declared file / None parameters are not parameters of the function')
     if f.args.vararg or f.args.kwarg or f.args.kwonlyargs or f.args.posonlyargs:
         raise Unsupported(f, 'parameter kinds')
@@ -237,7 +245,7 @@ def _file_prepass(f, cfg, notes):
             b = st.body[0]
             # (a) try: P = P or F.<attr>  except AttributeError: P = None      (P declared None)
             if has_attr_err and len(htypes) == 1 and h.name is None and isinstance(b, ast.Assign) and len(b.targets) == 1 \
-                    and isinstance(b.targets[0], ast.Name) and b.targets[0].id in nones \
+                    and isinstance(b.targets[0], ast.Name) and b.targets[0].id in nones + truthy \
                     and isinstance(b.value, ast.BoolOp) and isinstance(b.value.op, ast.Or) and len(b.value.values) == 2 \
                     and isinstance(b.value.values[0], ast.Name) and b.value.values[0].id == b.targets[0].id \
                     and isinstance(b.value.values[1], ast.Attribute) and isinstance(b.value.values[1].value, ast.Name) \
@@ -245,7 +253,8 @@ def _file_prepass(f, cfg, notes):
                     and len(h.body) == 1 and isinstance(h.body[0], ast.Assign) and len(h.body[0].targets) == 1 \
                     and isinstance(h.body[0].targets[0], ast.Name) and h.body[0].targets[0].id == b.targets[0].id \
                     and isinstance(h.body[0].value, ast.Constant) and h.body[0].value.value is None:
-                notes.add('c19:none-probe')
+                # T1: P a non-empty str: `P or F.<attr>` is P (the attribute is not read, nothing is raised)
+                notes.add('c19:truthy-probe' if b.targets[0].id in truthy else 'c19:none-probe')
                 i += 1
                 continue
             # (b) V = F ; try: F = V.detach()  except (AttributeError, ...): pass
@@ -271,9 +280,9 @@ def _file_prepass(f, cfg, notes):
         i += 1
     f.body = out
     # ---- B2: parameters declared None
-    for P in nones:
+    for P in nones + truthy:
         if _names(f, P, (ast.Store, ast.Del)):
-            raise Unsupported(f, 'the parameter %s (declared None) is assigned' % P)
+            raise Unsupported(f, 'the parameter %s (declared None / a codec name) is assigned' % P)
 
     class _Fold(ast.NodeTransformer):
         def visit_IfExp(self, n):
@@ -293,6 +302,36 @@ def _file_prepass(f, cfg, notes):
     for P in nones:
         if _names(f, P):
             raise Unsupported(_names(f, P)[0], 'the parameter %s (declared None) is used otherwise than as a truth test' % P)
+
+    # ---- T2 / T3: parameters declared a codec name: truth tests fold to the TRUE branch, `X.decode(P)` is the operation
+    class _FoldT(ast.NodeTransformer):
+        def visit_IfExp(self, n):
+            self.generic_visit(n)
+            if isinstance(n.test, ast.Name) and n.test.id in truthy:
+                notes.add('c19:truthy-fold')
+                return n.body
+            return n
+
+        def visit_If(self, n):
+            self.generic_visit(n)
+            if isinstance(n.test, ast.Name) and n.test.id in truthy:
+                notes.add('c19:truthy-fold')
+                return n.body
+            return n
+
+        def visit_Call(self, n):
+            self.generic_visit(n)
+            if isinstance(n.func, ast.Attribute) and n.func.attr == 'decode' and not n.keywords and len(n.args) == 1 \
+                    and isinstance(n.args[0], ast.Name) and n.args[0].id in truthy:
+                notes.add('c19:decode')
+                return _opcall('decode_utf8', [n.func.value], n)
+            return n
+    if truthy:
+        _FoldT().visit(f)
+    for P in truthy:
+        if _names(f, P):
+            raise Unsupported(_names(f, P)[0], 'the parameter %s (declared a codec name) is used otherwise than as a truth '
+                                               'test or as the argument of .decode()' % P)
     # ---- B4: seek / tell / read on the declared file parameter
     if _names(f, F, (ast.Store, ast.Del)):
         raise Unsupported(f, 'the file parameter %s is rebound' % F)
@@ -363,7 +402,7 @@ def _file_prepass(f, cfg, notes):
     for a in f.args.args:
         if a.arg == F:
             new_args += [ast.arg(arg=DATA), ast.arg(arg=POS)]
-        elif a.arg not in nones:
+        elif a.arg not in nones + truthy:
             new_args.append(a)
     f.args.args = new_args
     f.args.defaults = []
@@ -719,6 +758,19 @@ _DRV_CASES['reverse_iter_lines'] = r'''
     | none => "bad"
 '''
 
+# case id 3: `3 lfuel preseek pos blocksize <data>` -> the generated reverse_iter_lines_text (text mode, encoding='utf-8') at
+#            β = Nat on the abstract file; a line is the list of the code points of its characters
+_DRV_CASES['reverse_iter_lines_text'] = r'''
+  | 3 :: lf :: ps :: pos :: bs :: r =>
+    match takeN r with
+    | some (d, _) =>
+      match Src.jsonutils.reverse_iter_lines_text (β := Nat) lf.toNat (d.map Int.toNat) pos bs (ps != 0) with
+      | .ok ls => showInts (1 :: encLines (ls.map (fun l => l.map Char.toNat)))
+      | .error PyExc.ValueError => "0 ValueError"
+      | .error _ => "0 other"
+    | none => "bad"
+'''
+
 # the menu of `key` predicates of the indent cases: index -> (Python callable, the same predicate in the Lean driver)
 KEY_MENU = [bool, lambda l: True, lambda l: False, lambda l: l[:1] == 'a', lambda l: len(l) % 2 == 0]
 _DRV_KEYS = r'''
@@ -821,6 +873,48 @@ def _cases_reverse_iter_lines(mod, spec, rng, quick):
     return out
 
 
+# UTF-8 material: ASCII, 2/3/4-byte characters, and every kind of malformed sequence (lone continuation, truncated,
+# over-long, surrogate, above U+10FFFF, 0xC0/0xC1/0xF5+ lead bytes)
+UTF8_PIECES = [b'a', b'b', b' ', b'\n', b'\n', b'\r\n', b'\r', '\xe9'.encode(), '\u20ac'.encode(), '\U0001F600'.encode(),
+               '\x85'.encode(), '\u2028'.encode(), '\ud7ff'.encode(), '\ue000'.encode(), '\U0010ffff'.encode(), '\x7f'.encode(),
+               '\x80'.encode(), '\u07ff'.encode(), '\u0800'.encode(), '\uffff'.encode(), '\U00010000'.encode(),
+               b'\x80', b'\xbf', b'\xc3', b'\xe2\x82', b'\xf0\x9f\x98', b'\xc0\x80', b'\xc1\xbf', b'\xe0\x80\x80',
+               b'\xe0\x9f\xbf', b'\xed\xa0\x80', b'\xed\xbf\xbf', b'\xf0\x80\x80\x80', b'\xf0\x8f\xbf\xbf',
+               b'\xf4\x90\x80\x80', b'\xf5\x80\x80\x80', b'\xff', b'\xfe', b'\xc3\x28', b'\xe2\x28\xa1', b'\xf0\x28\x8c\xbc']
+
+
+def _cases_reverse_iter_lines_text(mod, spec, rng, quick):
+    """text mode: `encoding='utf-8'` given, the file a binary file object without `.encoding` (io.BytesIO)"""
+    import io
+    out = []
+    fixed = [b'', b'\n', b'a', b'a\n', b'\na', b'\r\n', 'h\xe9\nw\u20ac\r\n\U0001F600'.encode(), b'ok\n\xff\nok2\n', b'\xff\nok\n',
+             b'ok\n\xed\xa0\x80', '\u2028x\x85y\n'.encode(), b'\xc3\n\xa9']
+    datas = list(fixed)
+    for _ in range(300 if quick else 4000):
+        k = rng.choice([0, 1, 2, 3, 4, 6, 9, 14])
+        if rng.random() < 0.5:        # well-formed more often than not, so that long .ok results are compared too
+            datas.append(b''.join(rng.choice(UTF8_PIECES[:21]) for _ in range(k)))
+        else:
+            datas.append(b''.join(rng.choice(UTF8_PIECES) for _ in range(k)))
+    for d in datas:
+        bs = rng.choice([1, 1, 2, 3, 4, 7, 16, 4096])
+        preseek = rng.random() < 0.5
+        pos = rng.randrange(0, len(d) + 3) if rng.random() < 0.8 else 0
+        f = io.BytesIO(d)
+        f.seek(pos)
+        try:
+            ls = list(mod.reverse_iter_lines(f, blocksize=bs, preseek=preseek, encoding='utf-8'))
+            if not all(isinstance(l, str) for l in ls):
+                raise TypeError('a line that is not a str')
+            want = [1] + _enc_lines(ls)
+        except ValueError:              # UnicodeDecodeError is a ValueError
+            want = [0, 'ValueError']
+        except Exception:      # noqa: BLE001
+            want = [0, 'other']
+        out.append(([3, max(len(d), pos) + 2, int(preseek), pos, bs] + [len(d)] + list(d), want, repr((d, bs, preseek, pos))))
+    return out
+
+
 def _enc_bytes_lines(ls):
     out = [len(ls)]
     for l in ls:
@@ -830,7 +924,8 @@ def _enc_bytes_lines(ls):
     return out
 
 
-CASES = {'iter_splitlines': _cases_iter_splitlines, 'indent': _cases_indent, 'reverse_iter_lines': _cases_reverse_iter_lines}
+CASES = {'iter_splitlines': _cases_iter_splitlines, 'indent': _cases_indent, 'reverse_iter_lines': _cases_reverse_iter_lines,
+         'reverse_iter_lines_text': _cases_reverse_iter_lines_text}
 
 
 def selftest(pids, quick=False, seed=0, verbose=True):
@@ -894,7 +989,7 @@ def selftest(pids, quick=False, seed=0, verbose=True):
             r['mismatches'] += 1
             mismatches.append((name, what, 'Python stream %s but Lean stream %s' % (' '.join(map(str, want)), got)))
     rj = reject_tests(verbose=False)       # side conditions of the front-end: every violating snippet is refused
-    report['_reject_tests'] = {'snippets': len(REJECT) + len(REJECT_REV), 'not_refused': [w for w, _ in rj]}
+    report['_reject_tests'] = {'snippets': len(REJECT) + len(REJECT_REV) + len(REJECT_REV_TEXT), 'not_refused': [w for w, _ in rj]}
     for what, why in rj:
         mismatches.append(('reject-test', what, str(why)))
     report['_mismatches'] = [{'function': n, 'case': c, 'what': b} for n, c, b in mismatches[:5]]
@@ -1023,6 +1118,19 @@ REJECT_REV = [
     ('splitlines of a str', lambda: _rv("lines = buff.splitlines()\n        if len", "lines = 'a b'.splitlines()\n        if len")),
 ]
 
+# text mode (round 3f): the spec of index 1 (`reverse_iter_lines_text`, `encoding` declared the codec name 'utf-8')
+REJECT_REV_TEXT = [
+    ('codec parameter assigned', lambda: _rv("    if preseek:", "    encoding = 'latin-1'\n    if preseek:")),
+    ('codec parameter passed on', lambda: _rv("    buff = empty_bytes", "    print(encoding)\n    buff = empty_bytes")),
+    ('codec parameter compared', lambda: _rv("    buff = empty_bytes", "    if encoding == 'utf-16':\n        return\n    buff = empty_bytes")),
+    ('decode with an errors argument', lambda: _rv("yield line.decode(encoding) if encoding else line\n        buff", "yield line.decode(encoding, 'replace') if encoding else line\n        buff")),
+    ('decode with a keyword', lambda: _rv("yield line.decode(encoding) if encoding else line\n        buff", "yield line.decode(encoding=encoding) if encoding else line\n        buff")),
+    ('decode with another codec', lambda: _rv("yield line.decode(encoding) if encoding else line\n        buff", "yield line.decode('latin-1') if encoding else line\n        buff")),
+    ('decode without a codec', lambda: _rv("yield line.decode(encoding) if encoding else line\n        buff", "yield line.decode() if encoding else line\n        buff")),
+    ('probe that reads the attribute first', lambda: _rv("encoding = encoding or file_obj.encoding", "encoding = file_obj.encoding or encoding")),
+    ('a bytes line yielded in text mode', lambda: _rv("yield line.decode(encoding) if encoding else line\n        buff", "yield line\n        buff")),
+]
+
 
 def reject_tests(verbose=True):
     """-> list of snippets that were NOT refused (must be empty); the unmodified snippet must be accepted"""
@@ -1071,4 +1179,16 @@ def reject_tests(verbose=True):
             bad.append((what, 'accepted'))
         elif verbose:
             print('refused (%s): %s' % (what, infos[0]['error'][:110]))
+    for what, mk in REJECT_REV_TEXT:
+        src = mk()
+        try:
+            compile(src, '<snippet>', 'exec')
+        except SyntaxError as e:
+            bad.append((what, 'snippet does not compile: %s' % e))
+            continue
+        infos = tr_rev(src)
+        if len(infos) < 2 or not infos[1].get('error'):
+            bad.append((what, 'accepted'))
+        elif verbose:
+            print('refused (%s): %s' % (what, infos[1]['error'][:110]))
     return bad
